@@ -255,11 +255,12 @@ def run(ck):
         minor, fmt = ck.rng.choice(fio.PAIRS)
         n = ck.rng.randrange(1, 6)
         evlrs = fio.rand_vlrs(ck.rng, True, 2) if minor >= 4 else None
-        las = fio.make_las(ck.rng, minor, fmt, n, evlrs=evlrs)
+        how = ck.rng.choice(["evlrs", "close", "format", "format_extra"])
+        mine, theirs, xvariant = fio.foreign_extra_dims(ck.rng) if how == "format_extra" else ((), (), None)
+        las = fio.make_las(ck.rng, minor, fmt, n, mine, evlrs=evlrs)
         buf = io.BytesIO()
         w = LasWriter(buf, las.header, closefd=False)
         w.write_points(las.points)
-        how = ck.rng.choice(["evlrs", "close", "format"])
         inp = {"kind": "late", "minor": minor, "fmt": fmt, "n": n, "how": how}
         ck.case(("late", minor, fmt, n, how, las.points.array.tobytes()), nontrivial=True)
         ck.count("late:" + how)
@@ -271,6 +272,14 @@ def run(ck):
             w.write_evlrs(las.evlrs)
         elif how == "close":
             w.close()
+        elif how == "format_extra":
+            # same point format id, extra dimensions that differ in one respect only: another point format
+            ck.count("wrong_format:" + xvariant)
+            inp["variant"] = xvariant
+            pf = laspy.PointFormat(fmt)
+            for p_ in theirs:
+                pf.add_extra_dimension(p_)
+            other = laspy.PackedPointRecord.zeros(2, pf)
         else:
             variant = ck.rng.choice(["other_id", "same_id_extra_dims", "same_id_extra_type", "same_object_mutated"])
             ck.count("wrong_format:" + variant)
@@ -299,7 +308,7 @@ def run(ck):
                 raised = type(e).__name__
             if label == "non-empty" and raised != "Laspy":
                 ck.fail(f"writing points after '{how}' did not raise a laspy exception (got {raised})", inp)
-            if label == "empty" and raised is not None and how != "format":
+            if label == "empty" and raised is not None and how not in ("format", "format_extra"):
                 ck.count("empty_chunk_after_done_raised:" + raised)
             if buf.getvalue() != before:
                 ck.fail(f"a refused write_points ({label}, after '{how}') changed the destination", inp)
